@@ -214,6 +214,12 @@ def gen_cases(run):
         cases.append(("adopted", G.adopt_case(rng, "ad%d" % i, nbpus=rng.choice([4, 8, 16]))))
     for i in range(1500 if thorough else 200):
         cases.append(("re-register", G.reregister_case(rng, "rr%d" % i, nbpus=rng.choice([4, 8, 16]))))
+    # cpusets built word by word on pu:128 / pu:192 / pu:200 (every branch of the word loop of compare_inclusion)
+    cases += [("wordwise", c) for c in G.wordwise_cases(2, rng)]
+    cases += [("wordwise", c) for c in G.wordwise_cases(3, rng, sample=None if thorough else 300)]
+    cases += [("wordwise", c) for c in G.wordwise_cases(2, rng, infinite=(False, True), sample=None if thorough else 40) if not c[0].split()[1].endswith("_00")]
+    if thorough:
+        cases += [("wordwise", c) for c in G.wordwise_cases(3, rng, infinite=(False, True), sample=200) if not c[0].split()[1].endswith("_00")]
     for i in range(1500 if thorough else 200):
         cases.append(("no-cpukinds-flag", G.nocpukinds_case(rng, "nk%d" % i)))
     for i in range(3000 if thorough else 350):
